@@ -262,6 +262,105 @@ def run(ctx):
                     rmc.violate(key, "measures %s, expected the `%s` part of the line" % (fields or "something else", want), c.loc(n.get("sp")))
     rmc.require(5, "repeat sites")
 
+    # 1-based numbers: a displayed number is (0-based index of the line shown in that row) + 1
+    rnum = ctx.rule("R14-NUMBER", "every line number the snippet writers print is the 0-based index of the line in that row plus one: `X.line + 1` "
+                                  "for the row of partition X; rows between start and end of a long span: start.line + 2, start.line + 3, end.line")
+    FO = "pest_typed::formatter::FormatOption::<SF, MF, NF>::"
+
+    def num_of(e):
+        """('name of the local', offset) for `<local>.line (+ k)`, ('=name', 0) for a plain local, else None"""
+        while e["k"] in ("addr_of", "use", "cast"):
+            e = e["e"]
+        off = 0
+        if e["k"] == "binary" and e.get("op") == "+" and e["r"]["k"] == "lit" and "int" in (e["r"].get("v") or {}):
+            off = int(e["r"]["v"]["int"])
+            e = e["l"]
+        elif e["k"] == "binary" and e.get("op") == "-" and e["r"]["k"] == "lit" and "int" in (e["r"].get("v") or {}):
+            off = -int(e["r"]["v"]["int"])
+            e = e["l"]
+        while e["k"] in ("addr_of", "use", "cast"):
+            e = e["e"]
+        if e["k"] == "field" and e["name"] == "line" and e["base"]["k"] == "local":
+            return (e["base"].get("name"), off)
+        if e["k"] == "local" and off == 0:
+            return ("=" + str(e.get("name")), 0)
+        return None
+
+    def formatted_numbers(body):
+        out = []
+        for n in walk(body["value"]):
+            if n["k"] == "call" and n.get("callee") and strip_generics(n["callee"]["path"]) == "alloc::fmt::format":
+                tups = [m for m in walk(n) if m["k"] == "tuple" and m.get("mb") is not None]
+                if tups and tups[0]["es"]:
+                    out.append((num_of(tups[0]["es"][0]), c.loc(n.get("sp"))))
+        return out
+
+    # which parameters a function prints as a number (directly, or by handing them to a function that does): fixpoint
+    fbodies = {fid: b for fid, b in g.bodies.items() if fid.startswith("pest_typed::formatter::")}
+    numparams = {fid: set() for fid in fbodies}
+    for _ in range(4):
+        changed = False
+        for fid, b in fbodies.items():
+            pidx = {p_.get("name"): i for i, p_ in enumerate(b.get("params", [])) if p_.get("k") == "bind"}
+            for x, _loc in formatted_numbers(b):
+                if x and x[0].startswith("=") and x[0][1:] in pidx and pidx[x[0][1:]] not in numparams[fid]:
+                    numparams[fid].add(pidx[x[0][1:]])
+                    changed = True
+            for n in walk(b["value"]):
+                if n["k"] in ("call", "mcall") and n.get("callee"):
+                    tgt = next((f for f in fbodies if strip_generics(f) == strip_generics(n["callee"]["path"])), None)
+                    if tgt and numparams[tgt]:
+                        a = ([n["recv"]] if n["k"] == "mcall" else []) + n["args"]
+                        for i_ in numparams[tgt]:
+                            if i_ < len(a):
+                                x = num_of(a[i_])
+                                if x and x[0].startswith("=") and x[0][1:] in pidx and pidx[x[0][1:]] not in numparams[fid]:
+                                    numparams[fid].add(pidx[x[0][1:]])
+                                    changed = True
+        if not changed:
+            break
+
+    def numbers_of(fid):
+        b = fbodies[fid]
+        out = []
+        for x, loc in formatted_numbers(b):
+            if not (x and x[0].startswith("=")):
+                out.append((x, loc))
+        for n in walk(b["value"]):
+            if n["k"] in ("call", "mcall") and n.get("callee"):
+                tgt = next((f for f in fbodies if strip_generics(f) == strip_generics(n["callee"]["path"])), None)
+                if tgt and numparams[tgt]:
+                    a = ([n["recv"]] if n["k"] == "mcall" else []) + n["args"]
+                    for i_ in sorted(numparams[tgt]):
+                        if i_ < len(a):
+                            x = num_of(a[i_])
+                            if not (x and x[0].startswith("=")):
+                                out.append((x, c.loc(n.get("sp"))))
+        return out
+
+    def pname(fid, i_):
+        ps = fbodies[fid].get("params", [])
+        return ps[i_].get("name") if i_ < len(ps) else "?"
+
+    W = {"display_snippet_single_pos": lambda f: [(pname(f, 3), 1)],
+         "display_snippet_single_line": lambda f: [(pname(f, 3), 1)],
+         "display_snippet_multi_line": lambda f: [(pname(f, 3), 1), (pname(f, 3), 2), (pname(f, 3), 3), (pname(f, 4), 0), (pname(f, 4), 1)]}
+    for fn, wantf in sorted(W.items()):
+        fid = FO + fn
+        if fid not in fbodies:
+            rnum.violate(fn, "function missing (anchor lost)")
+            continue
+        got = numbers_of(fid)
+        want = sorted(wantf(fid))
+        gs = sorted((x for x, _ in got), key=str)
+        if gs == sorted(want, key=str):
+            for x, loc in got:
+                rnum.inst("%s: %s.line + %d" % (fn, x[0], x[1]), loc)
+        else:
+            rnum.violate(fn, "prints the numbers %s, expected %s (partition.line + offset; rows between the first and the last line of a "
+                             "long span are start + 2, start + 3 and end + 0)" % (gs, want), got[0][1] if got else None)
+    rnum.require(7, "numbered rows")
+
     # must-show: every successful return of display_span / display_position has displayed a snippet
     rs = ctx.rule("R14-SHOW", "every normally-completing path of display_span / display_position passes through a display_snippet_* call")
     for nm in ("display_span", "display_position"):
